@@ -186,14 +186,33 @@ def main(tier):
     pool_sx = prop[200:260] + scal[:150] + quant[:150]
     nseq = 250 if tier == "quick" else 3000
     calls = 0
-    for _ in range(nseq):
-        s = rng.choice(pool_sx)
-        p = lift.lower(s, share={})
+    # reference nodes (lazy_p / this_p) too: an analysis call must not resolve or bind them -- the harness frame does hold
+    # predicates under the referenced names, so a call that looks them up on the caller's behalf would find something
+    from predicate import all_p as _all_p, is_int_p as _is_int_p, is_list_of_p as _is_list_of_p, is_str_p as _is_str_p, lazy_p as _lazy_p, this_p as _this_p
+
+    ref_x = _is_int_p  # noqa: F841  (found by a frame walk for "ref_x")
+    ref_y = _is_str_p | _is_int_p  # noqa: F841
+    py_pool = [
+        ("lazy_p('ref_x') | is_str_p", lambda: _lazy_p("ref_x") | _is_str_p),
+        ("all_p(lazy_p('ref_y'))", lambda: _all_p(_lazy_p("ref_y"))),
+        ("is_int_p & ~lazy_p('ref_x')", lambda: _is_int_p & ~_lazy_p("ref_x")),
+        ("lazy_p('ref_nowhere') | is_int_p", lambda: _lazy_p("ref_nowhere") | _is_int_p),
+        ("is_str_p | is_list_of_p(this_p)", lambda: _is_str_p | _is_list_of_p(_this_p)),
+    ]
+    for k in range(nseq):
+        if k % 8 == 7:
+            s, th = py_pool[(k // 8) % len(py_pool)]
+            p = th()
+        else:
+            s = rng.choice(pool_sx)
+            p = lift.lower(s, share={})
         other = lift.lower(rng.choice(pool_sx))
         before = snapshot(p)
         fresh = copy.deepcopy(p)
         for _k in range(rng.randint(1, 8 if tier == "quick" else 30)):
             op = rng.choice(ops)
+            if isinstance(s, str) and op.startswith("generate"):
+                op = "to_dot"  # the generators evaluate the predicate (rejection filters), and evaluating a reference resolves it: legitimate
             calls += 1
             lim = lambda fn: budget.limited(fn, PURITY_BUDGET)[0]  # noqa: E731  every library call under a line-event budget
             try:
@@ -216,17 +235,17 @@ def main(tier):
                     same = True
             except budget.Starved:
                 if op in ("optimize", "can_optimize"):  # the terminating half of the property
-                    chk.add_failure(S.show(s), {"what": f"{op} did not return within {PURITY_BUDGET} interpreter line events on a tree of {S.size(s)} nodes"}, None)
+                    chk.add_failure(s if isinstance(s, str) else S.show(s), {"what": f"{op} did not return within {PURITY_BUDGET} interpreter line events"}, None)
                     break
                 same = True
             except Exception:  # noqa: BLE001  an exception is not a mutation (C17/C18/C09 judge those)
                 same = True
             after = snapshot(p)
             if after != before:
-                chk.add_failure(S.show(s), {"what": f"{op} mutated its argument", "before": str(before)[:300], "after": str(after)[:300]}, None)
+                chk.add_failure(s if isinstance(s, str) else S.show(s), {"what": f"{op} mutated its argument", "before": str(before)[:300], "after": str(after)[:300]}, None)
                 break
             if not same:
-                chk.add_failure(S.show(s), {"what": f"{op} answers differently on the used object and on a fresh copy"}, None)
+                chk.add_failure(s if isinstance(s, str) else S.show(s), {"what": f"{op} answers differently on the used object and on a fresh copy"}, None)
                 break
     chk.evaluations += calls
     chk.extra["purity_sequences"] = nseq
